@@ -316,3 +316,15 @@ PROPS["C08"] = {
     "units": {"lease": {"pkg": "./server", "run": "^TestVerifC08Lease$", "tiers": {"quick": T(800, 8, timeout=900), "thorough": T(25000, 12, timeout=3400)},
                         "floors": {"C08.lease": {"reply-after-lease": 0.5, "reply-within-old-lease": 0.25, "ghost-asked-within-lease": 0.1, "ttl-above-12h-ceiling": 0.05, "glueless": 0.15, "prefetch-on": 0.3, "change:withdraw": 0.1, "change:redelegate-insecure": 0.1}}}},
 }
+
+PROPS["C12"] = {
+    "level": "exploration",
+    "technique": "adversarial-authority property testing on the resolver-world harness with exact work accounting: a generated repertoire of pathological authorities, every upstream packet counted until the request tree is quiet, DNSSEC operations and internal sub-queries counted through verif-tagged hooks, budgets and modes generated",
+    "level_text": ("The authority of evil.test. (one address, or four, with a three-address parent) answers by the shape encoded in the question name: alias chains and loops of 2-40 aliases, DNAME ping-pong, glueless NS cycles, referrals that go one label deeper each time they are asked, a parent-detection trap (empty NOERROR to minimised probes, then a shallower referral, then ever-deeper referrals), REFUSED / SERVFAIL / silent / self-referring servers, NXNS fan-out to a victim zone and to further fan-outs, TC on UDP with a closing TCP side, 80-1600-record answers, slow and garbage responses; the signed sig.test. floods its answers with bad copies of genuine signatures and its DNSKEY set with tag-colliding keys (16-bit word swaps). "
+                   "Firewall mode (off / shadow / enforce), outbound / internal / signature budgets, the size parameter, QNAME minimisation and 'a second client repeats each question' are generated. For every client question the harness records the reply count, the virtual time to the reply, all packets any authority receives until 25 s after the reply (detached helpers and abandoned attempts included), signature verifications, DS digests and NSEC3 hashes (hook counters at the crypto primitives) and internal sub-queries started (failpoint at the sub-query entries, which also cuts a runaway off at 2000). "
+                   "Oracle: exactly one decodable reply within the query timeout; never more than 1500 packets or 2000 sub-queries in any mode; in enforce mode packets <= max_outbound_queries, signature checks <= max_signature_checks, DS digests and NSEC3 hashes <= their budgets, an over-budget reply is SERVFAIL with the budget EDE for EDNS clients and the next client's identical question is worked on again; off and shadow never report a budget; with one address per delegation and stateless shapes a shadow run's replies equal a firewall-off run's. Exploration."),
+    "level_note": "Trusted: the hook counters (they sit inside cryptoVerify, the DS digest match and the NSEC3 hash, and at the two internalExchange entries) and the packet log. max_internal_queries is not compared exactly: the counter sees sub-queries started, including ones the ledger then refuses. max_dnskey_candidates / per-RRset signature limits are covered only through the total. CPU time is not measured; the cache-internal blow-up found here shows as the sub-query cap being hit. Multi-address worlds make sdns's server choice scheduling-dependent, so only bounds are asserted there.",
+    "rule": ("evaluations = histories of 1-4 pathological questions (twice when the second client is on). Non-trivial = some question cost more than 8 packets or 8 signature checks, or a budget was reported exceeded; distinct = hash(mode, budgets, size, options, shapes)."),
+    "units": {"budget": {"pkg": "./server", "run": "^TestVerifC12Budget$", "tiers": {"quick": T(500, 8, timeout=900), "thorough": T(15000, 12, timeout=3400)},
+                         "floors": {"C12.budget": {"mode:enforce": 0.3, "mode:shadow": 0.1, "mode:off": 0.1, "budget-exceeded": 0.08, "shadow-vs-off-twin": 0.05, "multi-address-delegations": 0.2, "shape:restart": 0.1, "shape:loop": 0.05, "shape:many-sigs": 0.03, "shape:nxns-victim": 0.03}}}},
+}
